@@ -1,9 +1,11 @@
 import Bpmn.Driver.Main
 import Bpmn.Driver.C16
+import Bpmn.Driver.C16Decl
 open Bpmn.Driver
 
 def main : IO UInt32 :=
   runDriver (fun family params lines =>
     match family with
     | "c16" => C16.check params lines
+    | "c16decl" => C16Decl.check params lines
     | _ => { bad := [s!"unknown family {family}"] })
